@@ -193,9 +193,13 @@ def fail_label(verd):
 # known findings
 # ----------------------------------------------------------------------------------------------
 def load_known():
-    p = os.path.join(ROOT, "known_findings.json")
-    if not os.path.exists(p): return []
-    return json.load(open(p)).get("findings", [])
+    """known_findings/<ID>.json, one file per property (committed; never written at run time)"""
+    out = []
+    d = os.path.join(ROOT, "known_findings")
+    for f in sorted(os.listdir(d)) if os.path.isdir(d) else []:
+        if f.endswith(".json"):
+            out += json.load(open(os.path.join(d, f))).get("findings", [])
+    return out
 
 # ----------------------------------------------------------------------------------------------
 # main flow
@@ -234,7 +238,6 @@ def main(prop, argv):
     else:
         rng = random.Random(seed * 1000003 + (17 if tier == "thorough" else 0))
         cases = prop.cases(rng, tier)
-        if hasattr(prop, "exhaustive_flag"): stats["exhaustive"] = bool(prop.exhaustive_flag(tier))
 
     for flavour in flavours:
         runner = Runner(prop, flavour)
@@ -321,7 +324,8 @@ def main(prop, argv):
             "trusted_base": prop.TRUSTED_BASE + ["Print Assumptions: %d reports, axioms used: %s" %
                                                  (coq.get("assumption_reports", 0), ", ".join(coq["axioms"]) or "none (closed under the global context)")],
             "evaluations": stats["evaluations"], "distinct_nontrivial": len(stats["nontrivial"]),
-            "rule": prop.RULE, "samples": stats["samples"], "exhaustive": stats["exhaustive"],
+            "rule": prop.RULE, "samples": stats["samples"], "exhaustive": False,
+            "exhaustive_slices": getattr(prop, "EXHAUSTIVE_SLICES", "none"),
             "families": stats["families"], "distribution": stats["distribution"],
             "structural_drift": stats["drift"], "failing_cases": stats["fails"],
             "disagreements_checked": stats["fails"],
